@@ -3,3 +3,8 @@ add("C13", "exploration",
     "Trusted: harness/ref packed codec (written from the packing spec); rapid's generators. Go's native fuzzer adds coverage-guided inputs in the thorough tier only.",
     "property-based differential testing against a reference codec (rapid) + native fuzzing",
     "DESIGN.md section 3, C13")
+add("C03", "exploration",
+    "Generated value trees are encoded by an independent encoder under drawn layout plans (segment placement, near/far/double-far per edge, junk gaps, composite/primitive list kinds, zero-sized structs) and every accessor result of the public API is compared in lock step with an independent spec decoder (all widths/offsets incl. past-the-end, upgrade views of lists); on hostile mutations of such encodings every successful dereference must land inside the segments according to the independent bounds rules. Held on all generated cases.",
+    "Trusted: harness/ref encoder+decoder (self-tested by Encode/Decode identity and strict validation of its own output). Only in-memory 64-bit platforms; 32-bit int overflow branches are not explored.",
+    "property-based differential testing against an independent spec decoder (rapid), lock-step walk",
+    "DESIGN.md section 3, C03")
